@@ -67,26 +67,27 @@ def main():
         out["demo_with_change_exit"] = rc1
         out["demo_with_change_tail"] = o1[-300:]
         out["confirmed"] = bool(out["repo_tests_pass"] and rc0 == 0 and rc1 != 0)
-    finally:
-        sh("git -C /repo worktree remove --force %s" % wt)
-    if not out.get("confirmed"):
-        return finish(out, None)
-    # detection on /repo itself
-    rc, o = sh("git -C /repo status --porcelain")
-    if o.strip():
-        out["error"] = "/repo not clean"
-        return finish(out, None)
-    det = {}
-    try:
-        rc, o = sh("git -C /repo apply %s" % patch)
+        if not out.get("confirmed"):
+            return finish(out, None)
+        # detection: the property's check runs against the scratch worktree that has the change applied
+        # (GEODEPY_REPO), so that /repo itself is never disturbed and several candidates can be evaluated at once
+        det = {}
+        env2 = dict(os.environ)
+        env2["GEODEPY_REPO"] = wt
+        scratch_out = tempfile.mkdtemp(prefix="gvf_seedout_")
+        env2["VERIF_EVIDENCE_DIR"] = scratch_out
+        env2["VERIF_REPLAY_DIR"] = scratch_out
         for c in checks:
             t0 = time.time()
-            rc, o = sh("./check %s %s" % (c, tier), cwd=VERIF, timeout=7200)
+            rc, o = sh("./check %s %s" % (c, tier), cwd=VERIF, timeout=7200, env=env2)
             lines = [l for l in o.split("\n") if l.startswith("VIOLATION") or l.startswith("  what:") or l.startswith("MACHINERY") or l.startswith("OK ")]
             det[c] = {"tier": tier, "exit": rc, "wall_s": round(time.time() - t0, 1), "lines": lines[:6]}
     finally:
-        sh("git -C /repo checkout -- .")
-        sh("rm -f %s/replays/*.json" % VERIF)
+        sh("git -C /repo worktree remove --force %s" % wt)
+        try:
+            shutil.rmtree(scratch_out, ignore_errors=True)
+        except NameError:
+            pass
     out["detection"] = det
     out["detected"] = any(d["exit"] == 1 for d in det.values())
     return finish(out, keep, cand)
